@@ -5,7 +5,7 @@
 From Coq Require Import List NArith ZArith Bool Arith QArith.
 From Leaspy Require Import Base.Atoms Masked.Weighted Masked.Observed Masked.Pipeline
      Masked.WeightedProofs Masked.ClosedProofs Masked.PipelineProofs Masked.Saem Masked.SaemProofs
-     Masked.Source Masked.SourceProofs Masked.SourceTie Masked.NoiseStd Masked.NoiseStdProofs Masked.SourceExamples.
+     Masked.Source Masked.SourceProofs Masked.SourceTie Masked.NoiseStd Masked.NoiseStdProofs Masked.NoiseStdTie Masked.SourceExamples.
 From LeaspyGen Require Import GenC06.
 Import ListNotations.
 Local Close Scope Q_scope.
@@ -259,3 +259,26 @@ Theorem C06_noise_std_observed_only_after_burn_in : forall tol y y' m0 m0' steps
     ragree std_agree (noise_std_diagonal_saem tol y m0 steps) (noise_std_diagonal_saem tol y' m0' steps').
 Proof. exact noise_std_saem_observed_only. Qed.
 Print Assumptions C06_noise_std_observed_only_after_burn_in.
+
+(** The two noise update rules of _gaussian.py AS TRANSLATED from the current source compute [noise_rule]: on any state
+    statistics (y_L2, n_obs | y_L2_per_ft, n_obs_per_ft) and any collected statistics,
+    compute_std_from_variance((y_l2 + sum_dim(-2 * y_x_model + model_x_model[, but_dim=LVL_FT])) / n_obs.float(), tol=1e-5). *)
+Theorem C06_src_noise_rules : tie_noise_rules.
+Proof. exact gen_tie_noise_rules. Qed.
+Print Assumptions C06_src_noise_rules.
+
+(** ... and the adopted estimates of C06_noise_std_observed_only(_after_burn_in) ARE that rule body applied to the state
+    statistics of y and to the collected (resp. averaged) statistics. *)
+Theorem C06_noise_std_is_rule : forall tol y model,
+    noise_std_scalar tol y model = bind (y_L2_n_obs y) (fun p => bind (collect y model) (noise_rule DimDefault tol p)) /\
+    noise_std_diagonal tol y model = bind (y_L2_n_obs_per_ft y) (fun p => bind (collect y model) (noise_rule (ButDim [LVL_FT]) tol p)).
+Proof. exact noise_std_is_rule. Qed.
+Print Assumptions C06_noise_std_is_rule.
+
+Theorem C06_noise_std_saem_is_rule : forall tol y m0 steps,
+    noise_std_scalar_saem tol y m0 steps
+    = bind (y_L2_n_obs y) (fun p => bind (saem_stats y m0 steps) (noise_rule DimDefault tol p)) /\
+    noise_std_diagonal_saem tol y m0 steps
+    = bind (y_L2_n_obs_per_ft y) (fun p => bind (saem_stats y m0 steps) (noise_rule (ButDim [LVL_FT]) tol p)).
+Proof. exact noise_std_saem_is_rule. Qed.
+Print Assumptions C06_noise_std_saem_is_rule.
